@@ -266,36 +266,7 @@ func checkC09(c *Ctx) {
 			r.Ob("BIND", relName(f)+" recursive descent", t.Pos(rc.Pos()), bound, "before descending into a callee, the use() CallExpr's PrivateData must be set to the allNg[name] entry that is then visited")
 		}
 		// CALLSITE-POS + COPY-APPEND
-		allInstrs(f, func(in ssa.Instruction) {
-			call, ok := in.(*ssa.Call)
-			if !ok {
-				return
-			}
-			cal := call.Call.StaticCallee()
-			if cal == nil {
-				return
-			}
-			if funcIs(cal, pErr, "PlError.ChainAppend") {
-				recv := call.Call.Args[0]
-				fresh := false
-				if rc, ok := recv.(*ssa.Call); ok {
-					if fn := rc.Call.StaticCallee(); fn != nil && (funcIs(fn, pErr, "PlError.Copy") || funcIs(fn, pErr, "NewErr")) {
-						fresh = true
-					}
-				}
-				r.Ob("COPY-APPEND", relName(f)+" ChainAppend receiver", t.Pos(call.Pos()), fresh, "ChainAppend must be applied to a fresh copy (Copy()/NewErr), never to an error object that is stored and shared: receiver is "+path(recv))
-				// position argument
-				posArg := call.Call.Args[2]
-				checkCallSitePos(c, f, call, posArg, recCalls)
-			}
-			if funcIs(cal, pErr, "NewErr") && len(recCalls) > 0 {
-				// NewErr(procc.Name, pos, "script not found"): position of the use() call site
-				file := path(call.Call.Args[0])
-				if strings.Contains(file, ".Name") {
-					checkCallSitePos(c, f, call, call.Call.Args[1], recCalls)
-				}
-			}
-		})
+		walkerChainRules(c, f, recCalls, "COPY-APPEND", "CALLSITE-POS")
 		// RESOLVED-ONLY inside the walker: the retMap update is not inside the callee loop and lies behind its exhaustion
 		lps := naturalLoops(f)
 		allInstrs(f, func(in ssa.Instruction) {
@@ -483,4 +454,94 @@ func callRefComplete(c *Ctx, rule string) {
 		}
 	})
 	r.Ob(rule, "Script.Check publishes the recorded call sites as Script.CallRef", t.Pos(chk.Pos()), okC, "s.CallRef = ctx.callRef")
+}
+
+
+// walkerChainRules: the error-chain obligations inside a use() walker f (and the in-package helpers it calls):
+// ChainAppend is applied to a fresh copy, and the position appended / reported is the current call site's.
+func walkerChainRules(c *Ctx, f *ssa.Function, recCalls []*ssa.Call, ruleCopy, rulePos string) {
+	r, t := c.R, c.T
+	visit := func(g *ssa.Function, viaCall *ssa.Call) {
+		allInstrs(g, func(in ssa.Instruction) {
+			call, ok := in.(*ssa.Call)
+			if !ok {
+				return
+			}
+			cal := call.Call.StaticCallee()
+			if cal == nil {
+				return
+			}
+			var posArg ssa.Value
+			switch {
+			case funcIs(cal, pErr, "PlError.ChainAppend"):
+				recv := call.Call.Args[0]
+				fresh := false
+				if rc, ok := recv.(*ssa.Call); ok {
+					if fn := rc.Call.StaticCallee(); fn != nil && (funcIs(fn, pErr, "PlError.Copy") || funcIs(fn, pErr, "NewErr")) {
+						fresh = true
+					}
+				}
+				if ruleCopy != "" {
+					r.Ob(ruleCopy, relName(g)+" ChainAppend receiver", t.Pos(call.Pos()), fresh, "ChainAppend must be applied to a fresh copy (Copy()/NewErr), never to an error object that is stored and shared: receiver is "+path(recv))
+				}
+				posArg = call.Call.Args[2]
+			case funcIs(cal, pErr, "NewErr") && len(recCalls) > 0 && strings.Contains(path(call.Call.Args[0]), ".Name"):
+				posArg = call.Call.Args[1]
+			default:
+				return
+			}
+			if viaCall == nil {
+				checkCallSitePos(c, f, call, posArg, recCalls)
+				return
+			}
+			// inside a helper: translate the helper's parameter to the walker's argument and judge at the call
+			pp := path(posArg)
+			mapped := ""
+			for k, prm := range g.Params {
+				if k < len(viaCall.Call.Args) && (pp == prm.Name() || strings.HasPrefix(pp, prm.Name()+".")) {
+					mapped = path(viaCall.Call.Args[k]) + strings.TrimPrefix(pp, prm.Name())
+				}
+			}
+			key := fmt.Sprintf("%s %s position argument (through helper %s)", relName(f), cal.Name(), g.Name())
+			if mapped == "" {
+				r.Ob(rulePos, key+" #"+fmt.Sprint(retOrdinalInstr(f, viaCall)), t.Pos(viaCall.Pos()), false, "position "+pp+" inside the helper does not come from the walker")
+				return
+			}
+			if strings.Contains(mapped, ".NamePos") && !strings.Contains(mapped, "phi:") {
+				r.Ob(rulePos, key+" #"+fmt.Sprint(retOrdinalInstr(f, viaCall)), t.Pos(viaCall.Pos()), true, "position is "+mapped)
+				return
+			}
+			stale := false
+			detail := "position read from " + mapped + " when the helper is called"
+			for _, rc := range recCalls {
+				writes := false
+				allInstrs(f, func(in ssa.Instruction) {
+					if s, ok := in.(*ssa.Store); ok && path(s.Addr) == mapped {
+						writes = true
+					}
+				})
+				if writes && reachAvoid(rc, viaCall, func(in ssa.Instruction) bool {
+					s, ok := in.(*ssa.Store)
+					return ok && path(s.Addr) == mapped
+				}) {
+					stale = true
+					detail = fmt.Sprintf("the helper reads %s after the recursive call at %s, which assigns %s for the callee's own use() sites: the outer call site is reported at the inner script's position", mapped, t.Pos(rc.Pos()), mapped)
+				}
+			}
+			r.Ob(rulePos, key+" #"+fmt.Sprint(retOrdinalInstr(f, viaCall)), t.Pos(viaCall.Pos()), !stale, detail)
+		})
+	}
+	visit(f, nil)
+	// one level of in-package helpers
+	allInstrs(f, func(in ssa.Instruction) {
+		call, ok := in.(*ssa.Call)
+		if !ok {
+			return
+		}
+		g := call.Call.StaticCallee()
+		if g == nil || g == f || g.Pkg != f.Pkg || len(g.Blocks) == 0 {
+			return
+		}
+		visit(g, call)
+	})
 }
